@@ -145,6 +145,17 @@ def check_knn_scan(rep, pre: str, scan: KnnScan, graph: Term, allow_self_skip: b
     okd = nlc is not None and nlc[0] == graph and nlc[1] is not None
     rep.fn(pre + "KNN-domain", fn, f"for j in {show(dom)}", okd,
            "the scan must visit every node of the (training) graph", line=line)
+    # the scan is exhaustive: nothing leaves the candidate loop (or the per-query loop) early
+    early = [e for e in w.events if scan.cand.lid in e.loops and scan.bubble.lid not in e.loops
+             and ((e.kind == "break" and e.loops[-1] == scan.cand.lid)
+                  or (e.kind == "return" and e.fn is scan.cand.fn))]  # returns of inlined helpers are not exits
+    early += [e for e in w.events if e.kind == "break" and e.loops and e.loops[-1] == scan.per.lid]
+    for e in early:
+        rep.ev(pre + "KNN-exhaustive", e, False,
+               "the candidate scan is left early: candidates after this point are never considered, so the k slots do "
+               "not hold the k nearest of ALL nodes")
+    rep.fn(pre + "KNN-exhaustive", fn, "no early exit from the candidate scan", not early,
+           f"{len(early)} early exit(s)", line=line)
     # weight written to slot k, index written to the same slot
     rep.fn(pre + "KNN-slot", fn, "the candidate distance is written to slot k of the distance buffer",
            len(scan.weight_stores) in (1, 2), f"found {len(scan.weight_stores)} store(s)", line=line)
